@@ -21,7 +21,15 @@ def main():
         sys.exit(2)
     failed = []
     for pid in registry.PROPS:
-        for gen_name, mod in registry.GEN[pid]:
+        if pid in registry.CUSTOM:
+            try:
+                ok, info = registry.run_custom(pid)
+            except Exception as e:      # a broken emitter must not stop the rest of the setup
+                ok, info = False, {'error': f'{type(e).__name__}: {e}'}
+            if not ok:
+                failed.append((pid, 'custom', info.get('error')))
+                print(f'setup: custom generator of {pid} refused: {info.get("error")}')
+        for gen_name, mod in registry.GEN.get(pid, []):
             ok, info = generate(common.REPO, gen_name, registry.targets_of(mod), common.GEN)
             if not ok:
                 failed.append((pid, gen_name, info['error']))
